@@ -1828,7 +1828,22 @@ def job_typer(job):
     return res
 
 
-JOBS = {"typer": job_typer, "worklist": job_worklist, "expansions": job_expansions, "synth": job_synth, "funcmoment": job_funcmoment, "bayesnet": job_bayesnet, "dists": job_dists, "invariants": job_invariants, "session": job_session, "accepts": job_accepts, "analyze": job_analyze, "linrec": job_linrec, "explattice": job_explattice, "simulate": job_simulate}
+def job_parse_many(job):
+    """acceptance of many texts by the parser alone (no normalization): list of [accepted, exception class]"""
+    from inputparser import Parser
+    out = []
+    for text in job["texts"]:
+        try:
+            Parser().parse_string(text)
+            out.append([True, ""])
+        except JobTimeout:
+            raise
+        except Exception as ex:
+            out.append([False, type(ex).__name__])
+    return {"id": job["id"], "kind": "parse_many", "results": out}
+
+
+JOBS = {"parse_many": job_parse_many, "typer": job_typer, "worklist": job_worklist, "expansions": job_expansions, "synth": job_synth, "funcmoment": job_funcmoment, "bayesnet": job_bayesnet, "dists": job_dists, "invariants": job_invariants, "session": job_session, "accepts": job_accepts, "analyze": job_analyze, "linrec": job_linrec, "explattice": job_explattice, "simulate": job_simulate}
 
 
 def handle(job):
